@@ -213,6 +213,7 @@ def run_fuzz_part(res, pid, entry, runs, seed_value, shard, max_len=4096, timeou
         # normally done by MANIFEST.setup_cmd; offline install from the wheelhouse
         subprocess.run([sys.executable, "-m", "pip", "install", "--no-index", "--find-links", "/opt/veriftools/wheels", "--target",
                         os.path.join(VERIF_DIR, ".deps"), "atheris"], capture_output=True)
+    timeout = int(os.environ.get("VPBT_FUZZ_TIMEOUT", timeout))  # (test aid)
     td = tempfile.mkdtemp(prefix="vpbt_fuzz_")
     try:
         corpus = os.path.join(td, "corpus")
@@ -220,12 +221,23 @@ def run_fuzz_part(res, pid, entry, runs, seed_value, shard, max_len=4096, timeou
         env = dict(os.environ)
         cmd = [sys.executable, "-m", "vpbt.fuzz.target", pid, entry, td, corpus, f"-runs={int(runs)}", f"-seed={seed_value * 16 + shard + 1}",
                f"-max_len={max_len}", "-len_control=0", f"-artifact_prefix={td}/", "-print_final_stats=1"]
-        p = subprocess.run(cmd, capture_output=True, text=True, cwd=VERIF_DIR, env=env, timeout=timeout)
+        timed_out = False
+        try:
+            p = subprocess.run(cmd, capture_output=True, text=True, cwd=VERIF_DIR, env=env, timeout=timeout)
+            p_stderr, p_rc = p.stderr, p.returncode
+        except subprocess.TimeoutExpired as te:
+            # a wall-clock budget hit (loaded machine) is "inconclusive", never an error or a violation: keep what the campaign
+            # had flushed so far
+            timed_out = True
+            p_stderr = te.stderr.decode("utf-8", "replace") if isinstance(te.stderr, bytes) else (te.stderr or "")
+            p_rc = 0
+            res.inconclusive += 1
+            res.notes.append(f"fuzz campaign shard {shard} stopped at its wall-clock budget of {timeout}s (inconclusive)")
         st = {}
         if os.path.exists(os.path.join(td, "stats.json")):
             st = json.load(open(os.path.join(td, "stats.json")))
         execs = 0
-        for line in p.stderr.splitlines():
+        for line in p_stderr.splitlines():
             if line.startswith("stat::number_of_executed_units:"):
                 execs = int(line.split(":")[-1])
         res.evaluations += execs or st.get("execs", 0)
@@ -243,8 +255,8 @@ def run_fuzz_part(res, pid, entry, runs, seed_value, shard, max_len=4096, timeou
             sg = signature(v["violation"])
             res.found[sg] = {"violation": v["violation"], "case": v["case"], "count": 1, "size": len(json.dumps(v["case"], default=str)),
                              "part": res.part}
-        elif p.returncode != 0:
-            raise RuntimeError(f"fuzz target failed (exit {p.returncode}): {p.stderr[-1500:]}")
+        elif p_rc != 0 and not timed_out:
+            raise RuntimeError(f"fuzz target failed (exit {p_rc}): {p_stderr[-1500:]}")
     finally:
         shutil.rmtree(td, ignore_errors=True)
     return res
